@@ -79,6 +79,19 @@ type vCluster struct {
 	channel  string
 	// fault: POSTs to this upstream address fail ("" = none)
 	failPost string
+	// faults: upstreams whose GET answers (/lookup, /nodes, ...) fail, and upstreams that are
+	// down (every request to them fails)
+	failGets []string
+	down     []string
+}
+
+// getFails / postFails: does a GET / POST to upstream `addr` fail?
+func (u *vCluster) getFails(addr string) bool {
+	return vIndexOf(u.failGets, addr) >= 0 || vIndexOf(u.down, addr) >= 0
+}
+
+func (u *vCluster) postFails(addr string) bool {
+	return (u.failPost != "" && u.failPost == addr) || vIndexOf(u.down, addr) >= 0
 }
 
 var vMutatingKinds = map[string]bool{
@@ -263,9 +276,15 @@ func (u *vCluster) serve(addr string, w http.ResponseWriter, r *http.Request) {
 	q := r.URL.Query()
 	u.mu.Lock()
 	u.reqs = append(u.reqs, vReq{srv: addr, method: r.Method, path: r.URL.Path, topic: q.Get("topic"), chanl: q.Get("channel"), node: q.Get("node")})
-	fail := u.failPost == addr
+	fail := u.postFails(addr)
+	failGet := u.getFails(addr)
 	u.mu.Unlock()
 	w.Header().Set("Content-Type", "application/json")
+	if r.Method == "GET" && failGet {
+		w.WriteHeader(500)
+		io.WriteString(w, `{"message":"INTERNAL_ERROR"}`)
+		return
+	}
 	if r.Method != "GET" {
 		if fail {
 			w.WriteHeader(500)
@@ -524,7 +543,7 @@ func vNewClusterHTTPTopo(nLookupd, nNsqd, nIdle, layout, view int) *vCluster {
 	}
 	verifrt.Stub("(*github.com/nsqio/nsq/internal/http_api.Client).POSTV1", func(c *http_api.Client, endpoint string, data url.Values, v interface{}) error {
 		u.posts = append(u.posts, endpoint)
-		if u.failPost != "" && strings.HasPrefix(endpoint, "http://"+u.failPost+"/") {
+		if u.postFails(vEndpointAddr(endpoint)) {
 			return errors.New("got response 500 Internal Server Error")
 		}
 		return nil
@@ -550,6 +569,9 @@ func vNewClusterHTTPTopo(nLookupd, nNsqd, nIdle, layout, view int) *vCluster {
 			return producer{"127.0.0.1:9", "h", h, 4150, port, "1.0.0", []string{tn}, []bool{false}}
 		}
 		addr := vEndpointAddr(endpoint)
+		if u.getFails(addr) {
+			return errors.New("got response 500 Internal Server Error")
+		}
 		var doc []byte
 		switch {
 		case strings.Contains(endpoint, "/lookup?"):
